@@ -197,7 +197,7 @@ def clone_scenario(ctx):
         return Obj(x.name + "'", dict(x.attrs)) if isinstance(x, Obj) else Sym("copy", freeze(x))
     hooks = {"substitute": h_substitute, "ca.substitute": h_substitute, "is_equal": lambda s_, r, a, k, n: freeze(a[0]) == freeze(a[1]), "copy": h_copy, "deepcopy": h_copy,
              "Stage": lambda s_, r, a, k, n: ret, "defaultdict": lambda s_, r, a, k, n: {}, "HashDict": lambda s_, r, a, k, n: {},
-             "HashOrderedDict": lambda s_, r, a, k, n: ({freeze(x): y for x, y in a[0]} if a else {})}
+             "HashOrderedDict": lambda s_, r, a, k, n: ({freeze(x): y for x, y in (s_.iterable(a[0], n) if not isinstance(a[0], (list, tuple, dict)) else (a[0].items() if isinstance(a[0], dict) else a[0]))} if a else {})}
     truth = {"isinstance(ph_expr, MX)": True, "'T' not in kwargs": True, "'t0' not in kwargs": True, "'T' in kwargs": False, "'t0' in kwargs": False}
     # the test on the kind of a placeholder's expression may be spelled with any local name
     for n_ in ast.walk(f.node):
